@@ -57,8 +57,8 @@ theorem step_setIdx {s : State} {σ : List Tree} (R : Refines s σ) (x : Nat) (p
     exact ⟨⟨by simpa using D.inv, sim_stable (T := []) sim1 (by simpa using D.stable)⟩, by first | rfl | trivial⟩
 
 /-- `y = pop / remove / consume x[path]` -/
-theorem step_extract {leaf : Heap → Val → WalkRes} {φ : Tree → Option (Tree × Tree)}
-    (L : LeafSpec leaf [] [] φ) {s : State} {σ : List Tree} (R : Refines s σ) (y x : Nat) (path : List Int) :
+theorem step_extract {leaf : Leaf} {φ : Store.LeafT}
+    (L : LeafSpec leaf.act [] [] φ.act) (LI : InsSpec leaf.ins φ.ins [] []) {s : State} {σ : List Tree} (R : Refines s σ) (y x : Nat) (path : List Int) :
     Refines
       (if declared s x ∧ declared s y then
         (if (withCell s s.h x (fun h v => walk leaf h v path)).2.2 then
@@ -79,7 +79,7 @@ theorem step_extract {leaf : Heap → Val → WalkRes} {φ : Tree → Option (Tr
     have hd : (declared s x = true ∧ declared s y = true) := by simp [declared, hx, hy]
     have hd' : (Store.declared σ x = true ∧ Store.declared σ y = true) := by
       rw [← R.decl, ← R.decl]; exact hd
-    obtain ⟨_, hlen, W⟩ := withCell_walk L (T := []) path hx (by simpa using R.inv) R.sim
+    obtain ⟨_, hlen, W⟩ := withCell_walk L LI (T := []) path hx (by simpa using R.inv) R.sim
     simp only [Store.extract, hd, hd', and_self, if_true, Store.get]
     cases hm : modPath φ (σ.getD x .null) path with
     | none =>
@@ -100,11 +100,11 @@ theorem step_extract {leaf : Heap → Val → WalkRes} {φ : Tree → Option (Tr
     exact ⟨R, by first | rfl | trivial⟩
 
 theorem step_pop {s : State} {σ : List Tree} (R : Refines s σ) (y x : Nat) (path : List Int) :
-    StepOK s σ (.pop y x path) := step_extract popLeaf_spec R y x path
+    StepOK s σ (.pop y x path) := step_extract popLeaf_spec popLeaf_ins R y x path
 theorem step_remove {s : State} {σ : List Tree} (R : Refines s σ) (y x : Nat) (path : List Int) (i : Int) :
-    StepOK s σ (.remove y x path i) := step_extract (removeLeaf_spec i) R y x path
+    StepOK s σ (.remove y x path i) := step_extract (removeLeaf_spec i) (removeLeaf_ins i) R y x path
 theorem step_consume {s : State} {σ : List Tree} (R : Refines s σ) (y x : Nat) (path : List Int) :
-    StepOK s σ (.consume y x path) := step_extract takeLeaf_spec R y x path
+    StepOK s σ (.consume y x path) := step_extract takeLeaf_spec takeLeaf_ins R y x path
 
 theorem getD_set_same {α : Type} (l : List α) (x : Nat) (v d : α) (hx : x < l.length) : (l.set x v).getD x d = v :=
   getD_set_self l x v d hx
